@@ -21,6 +21,9 @@ pub struct WorkerLog {
     /// large values this opener committed while it held the database: (key, length)
     #[serde(default)]
     pub big: Vec<(String, usize)>,
+    /// a child process this opener started while it had the database open (it outlives the opener)
+    #[serde(default)]
+    pub child_pid: u32,
 }
 
 fn now_ns() -> u64 {
@@ -43,7 +46,7 @@ pub fn worker(ctx: &Ctx) {
     }
     if let Some(exp) = ctx.get("verify") {
         // last look after every opener has gone: everything that was committed must be there
-        let mut log = WorkerLog { id, outcome: "ok".into(), detail: String::new(), t_call: now_ns(), t_open_ret: 0, t_closing: 0, seen: vec![], big: vec![] };
+        let mut log = WorkerLog { id, outcome: "ok".into(), detail: String::new(), t_call: now_ns(), t_open_ret: 0, t_closing: 0, seen: vec![], big: vec![], child_pid: 0 };
         let expect: Vec<(String, usize, u8)> = std::fs::read(exp).ok().and_then(|b| serde_json::from_slice(&b).ok()).unwrap_or_default();
         let r = util::catch(|| -> Result<(), String> {
             let db = OpenOptions::new().pagesize(1024).num_pages(8).open(&path).map_err(|e| format!("open: {}", e))?;
@@ -97,7 +100,7 @@ pub fn worker(ctx: &Ctx) {
             libc::sigaction(libc::SIGUSR1, &sa, std::ptr::null_mut());
         }
     }
-    let mut log = WorkerLog { id, outcome: "ok".into(), detail: String::new(), t_call: now_ns(), t_open_ret: 0, t_closing: 0, seen: vec![], big: vec![] };
+    let mut log = WorkerLog { id, outcome: "ok".into(), detail: String::new(), t_call: now_ns(), t_open_ret: 0, t_closing: 0, seen: vec![], big: vec![], child_pid: 0 };
     let r = util::catch(|| -> Result<(), String> {
         let db = loop {
             match OpenOptions::new().pagesize(1024).num_pages(8).direct_writes(ctx.get("direct").is_some()).open(&path) {
@@ -154,6 +157,14 @@ pub fn worker(ctx: &Ctx) {
             std::thread::sleep(std::time::Duration::from_micros(500));
         }
         db.check().map_err(|e| format!("DB::check: {}", e))?;
+        if ctx.get("child").is_some() {
+            // the holder starts a helper process while it has the database open; the helper outlives it.
+            // Closing the database must give it back although that process is still running (a descriptor
+            // of the database that leaks into the child keeps the lock alive with it).
+            let ch = std::process::Command::new("sleep").arg("120").env_remove("LD_PRELOAD").stdin(std::process::Stdio::null()).stdout(std::process::Stdio::null()).stderr(std::process::Stdio::null()).spawn().map_err(|e| format!("spawn helper: {}", e))?;
+            log.child_pid = ch.id();
+            std::mem::forget(ch);
+        }
         if let Some(how) = ctx.get("die") {
             // this holder is killed while it has the database open (power button, OOM killer, kill -9): the
             // kernel closes its descriptors, nothing of the database's own closing code runs.  Everything it
@@ -233,6 +244,9 @@ pub struct Proc {
     /// 2 = with an uncommitted write transaction open
     #[serde(default)]
     pub die: u8,
+    /// this holder starts a helper process (`sleep 120`) while it has the database open; the helper outlives it
+    #[serde(default)]
+    pub child: bool,
 }
 
 #[derive(Serialize, Deserialize, Debug, Clone)]
@@ -254,7 +268,7 @@ pub fn forced_cases(thorough: bool) -> Vec<Case> {
                 continue; // an existing file is not written during open
             }
             for b_waits_for in [None, Some("before_mmap#0")] {
-                let a = Proc { die: 0, grow: 0, done: String::new(), direct: false, alias: false, signals: 0, fail_init: false, soft_ms: 0, delay_us: 0, hold_us: 300, gates: vec![(ap.to_string(), "B-opened".into(), format!("A-at-{}", ai)), ("before_mmap#0".into(), String::new(), "A-at-mmap".into())] };
+                let a = Proc { child: false, die: 0, grow: 0, done: String::new(), direct: false, alias: false, signals: 0, fail_init: false, soft_ms: 0, delay_us: 0, hold_us: 300, gates: vec![(ap.to_string(), "B-opened".into(), format!("A-at-{}", ai)), ("before_mmap#0".into(), String::new(), "A-at-mmap".into())] };
                 let mut bg = vec![("after_open#0".to_string(), String::new(), "B-opened".to_string())];
                 if let Some(p) = b_waits_for {
                     if *ap == p {
@@ -263,16 +277,16 @@ pub fn forced_cases(thorough: bool) -> Vec<Case> {
                     // B continues past its open64 only after A has reached its mmap (i.e. holds the lock in correct code)
                     bg = vec![("after_open#0".to_string(), "A-at-mmap".to_string(), "B-opened".to_string())];
                     // then A must not wait for B (it would never come): A only signals
-                    let a2 = Proc { die: 0, grow: 0, done: String::new(), direct: false, alias: false, signals: 0, fail_init: false, soft_ms: 0, delay_us: 0, hold_us: 2000, gates: vec![(ap.to_string(), String::new(), format!("A-at-{}", ai)), ("before_mmap#0".into(), String::new(), "A-at-mmap".into())] };
-                    v.push(Case { label: format!("existing={} A passes {}; B held after its open64 until A maps", existing, ap), existing, procs: vec![a2, Proc { die: 0, grow: 0, done: String::new(), direct: false, alias: false, signals: 0, fail_init: false, soft_ms: 0, delay_us: 100, hold_us: 100, gates: bg }] });
+                    let a2 = Proc { child: false, die: 0, grow: 0, done: String::new(), direct: false, alias: false, signals: 0, fail_init: false, soft_ms: 0, delay_us: 0, hold_us: 2000, gates: vec![(ap.to_string(), String::new(), format!("A-at-{}", ai)), ("before_mmap#0".into(), String::new(), "A-at-mmap".into())] };
+                    v.push(Case { label: format!("existing={} A passes {}; B held after its open64 until A maps", existing, ap), existing, procs: vec![a2, Proc { child: false, die: 0, grow: 0, done: String::new(), direct: false, alias: false, signals: 0, fail_init: false, soft_ms: 0, delay_us: 100, hold_us: 100, gates: bg }] });
                     continue;
                 }
-                v.push(Case { label: format!("existing={} A held at {} until B's open64 returned", existing, ap), existing, procs: vec![a, Proc { die: 0, grow: 0, done: String::new(), direct: false, alias: false, signals: 0, fail_init: false, soft_ms: 0, delay_us: 200, hold_us: 100, gates: bg.clone() }] });
+                v.push(Case { label: format!("existing={} A held at {} until B's open64 returned", existing, ap), existing, procs: vec![a, Proc { child: false, die: 0, grow: 0, done: String::new(), direct: false, alias: false, signals: 0, fail_init: false, soft_ms: 0, delay_us: 200, hold_us: 100, gates: bg.clone() }] });
                 if thorough || ai % 2 == 0 {
                     // three processes: C arrives while A is held as well
-                    let a3 = Proc { die: 0, grow: 0, done: String::new(), direct: false, alias: false, signals: 0, fail_init: false, soft_ms: 0, delay_us: 0, hold_us: 300, gates: vec![(ap.to_string(), "C-opened".into(), format!("A-at-{}", ai))] };
-                    let b3 = Proc { die: 0, grow: 0, done: String::new(), direct: false, alias: false, signals: 0, fail_init: false, soft_ms: 0, delay_us: 150, hold_us: 200, gates: vec![("after_open#0".into(), String::new(), "B-opened".into())] };
-                    let c3 = Proc { die: 0, grow: 0, done: String::new(), direct: false, alias: false, signals: 0, fail_init: false, soft_ms: 0, delay_us: 300, hold_us: 100, gates: vec![("after_open#0".into(), "B-opened".into(), "C-opened".into())] };
+                    let a3 = Proc { child: false, die: 0, grow: 0, done: String::new(), direct: false, alias: false, signals: 0, fail_init: false, soft_ms: 0, delay_us: 0, hold_us: 300, gates: vec![(ap.to_string(), "C-opened".into(), format!("A-at-{}", ai))] };
+                    let b3 = Proc { child: false, die: 0, grow: 0, done: String::new(), direct: false, alias: false, signals: 0, fail_init: false, soft_ms: 0, delay_us: 150, hold_us: 200, gates: vec![("after_open#0".into(), String::new(), "B-opened".into())] };
+                    let c3 = Proc { child: false, die: 0, grow: 0, done: String::new(), direct: false, alias: false, signals: 0, fail_init: false, soft_ms: 0, delay_us: 300, hold_us: 100, gates: vec![("after_open#0".into(), "B-opened".into(), "C-opened".into())] };
                     v.push(Case { label: format!("existing={} three processes, A held at {} until B and C called open64", existing, ap), existing, procs: vec![a3, b3, c3] });
                 }
             }
@@ -283,55 +297,55 @@ pub fn forced_cases(thorough: bool) -> Vec<Case> {
     // the size is read the second opener cannot get that far, the soft timeout expires and the run
     // proceeds normally; if the size is read outside the exclusive lock the ordering happens.
     for existing in [false] {
-        let a = Proc { die: 0, grow: 0, done: String::new(), direct: false, alias: false, signals: 0, fail_init: false, soft_ms: 300, delay_us: 0, hold_us: 200, gates: vec![("after_stat#0".into(), "B-looked".into(), "A-looked".into())] };
-        let b = Proc { die: 0, grow: 0, done: String::new(), direct: false, alias: false, signals: 0, fail_init: false, soft_ms: 300, delay_us: 150, hold_us: 200, gates: vec![("after_stat#0".into(), "A-looked".into(), "B-looked".into())] };
+        let a = Proc { child: false, die: 0, grow: 0, done: String::new(), direct: false, alias: false, signals: 0, fail_init: false, soft_ms: 300, delay_us: 0, hold_us: 200, gates: vec![("after_stat#0".into(), "B-looked".into(), "A-looked".into())] };
+        let b = Proc { child: false, die: 0, grow: 0, done: String::new(), direct: false, alias: false, signals: 0, fail_init: false, soft_ms: 300, delay_us: 150, hold_us: 200, gates: vec![("after_stat#0".into(), "A-looked".into(), "B-looked".into())] };
         v.push(Case { label: "two openers both look at the empty file's size before either initialises it".into(), existing, procs: vec![a.clone(), b.clone()] });
-        let c = Proc { die: 0, grow: 0, done: String::new(), direct: false, alias: false, signals: 0, fail_init: false, soft_ms: 300, delay_us: 250, hold_us: 100, gates: vec![("after_stat#0".into(), "B-looked".into(), "C-looked".into())] };
+        let c = Proc { child: false, die: 0, grow: 0, done: String::new(), direct: false, alias: false, signals: 0, fail_init: false, soft_ms: 300, delay_us: 250, hold_us: 100, gates: vec![("after_stat#0".into(), "B-looked".into(), "C-looked".into())] };
         v.push(Case { label: "three openers all look at the empty file's size before any initialises it".into(), existing, procs: vec![a, b, c] });
-        let a2 = Proc { die: 0, grow: 0, done: String::new(), direct: false, alias: false, signals: 0, fail_init: false, soft_ms: 400, delay_us: 0, hold_us: 100, gates: vec![("after_stat#0".into(), "B-closing".into(), "A-looked".into())] };
-        let b2 = Proc { die: 0, grow: 0, done: String::new(), direct: false, alias: false, signals: 0, fail_init: false, soft_ms: 0, delay_us: 300, hold_us: 100, gates: vec![("before_close#0".into(), String::new(), "B-closing".into())] };
+        let a2 = Proc { child: false, die: 0, grow: 0, done: String::new(), direct: false, alias: false, signals: 0, fail_init: false, soft_ms: 400, delay_us: 0, hold_us: 100, gates: vec![("after_stat#0".into(), "B-closing".into(), "A-looked".into())] };
+        let b2 = Proc { child: false, die: 0, grow: 0, done: String::new(), direct: false, alias: false, signals: 0, fail_init: false, soft_ms: 0, delay_us: 300, hold_us: 100, gates: vec![("before_close#0".into(), String::new(), "B-closing".into())] };
         v.push(Case { label: "an opener that has seen an empty file is held until another opener has created, used and closed the database".into(), existing, procs: vec![a2, b2] });
         // an opener whose initialisation fails (file-size limit) while a second one is queued on the lock and a
         // third arrives later: the failure of the first must not let the other two in together
-        let x = Proc { die: 0, grow: 0, done: String::new(), direct: false, alias: false, signals: 0, fail_init: true, soft_ms: 300, delay_us: 0, hold_us: 0, gates: vec![("after_stat#0".into(), "Y-opened".into(), "X-looked".into())] };
-        let y = Proc { die: 0, grow: 0, done: String::new(), direct: false, alias: false, signals: 0, fail_init: false, soft_ms: 0, delay_us: 300, hold_us: 4000, gates: vec![("after_open#0".into(), String::new(), "Y-opened".into())] };
-        let z = Proc { die: 0, grow: 0, done: String::new(), direct: false, alias: false, signals: 0, fail_init: false, soft_ms: 0, delay_us: 2500, hold_us: 300, gates: vec![] };
+        let x = Proc { child: false, die: 0, grow: 0, done: String::new(), direct: false, alias: false, signals: 0, fail_init: true, soft_ms: 300, delay_us: 0, hold_us: 0, gates: vec![("after_stat#0".into(), "Y-opened".into(), "X-looked".into())] };
+        let y = Proc { child: false, die: 0, grow: 0, done: String::new(), direct: false, alias: false, signals: 0, fail_init: false, soft_ms: 0, delay_us: 300, hold_us: 4000, gates: vec![("after_open#0".into(), String::new(), "Y-opened".into())] };
+        let z = Proc { child: false, die: 0, grow: 0, done: String::new(), direct: false, alias: false, signals: 0, fail_init: false, soft_ms: 0, delay_us: 2500, hold_us: 300, gates: vec![] };
         v.push(Case { label: "the first opener fails to initialise the file while a second is queued on the lock; a third arrives later".into(), existing, procs: vec![x, y, z] });
     }
     // an opener held just BEFORE its open(2) of the path (after anything it may have learnt about the path
     // earlier) until another opener has created the database, committed to it and is about to close it
     {
-        let b = Proc { die: 0, grow: 0, done: String::new(), direct: false, alias: false, signals: 0, fail_init: false, soft_ms: 0, delay_us: 0, hold_us: 100, gates: vec![("before_open#0".into(), "A-closing".into(), "B-parked".into())] };
-        let a = Proc { die: 0, grow: 0, done: String::new(), direct: false, alias: false, signals: 0, fail_init: false, soft_ms: 0, delay_us: 0, hold_us: 300, gates: vec![("before_open#0".into(), "B-parked".into(), String::new()), ("before_close#0".into(), String::new(), "A-closing".into())] };
+        let b = Proc { child: false, die: 0, grow: 0, done: String::new(), direct: false, alias: false, signals: 0, fail_init: false, soft_ms: 0, delay_us: 0, hold_us: 100, gates: vec![("before_open#0".into(), "A-closing".into(), "B-parked".into())] };
+        let a = Proc { child: false, die: 0, grow: 0, done: String::new(), direct: false, alias: false, signals: 0, fail_init: false, soft_ms: 0, delay_us: 0, hold_us: 300, gates: vec![("before_open#0".into(), "B-parked".into(), String::new()), ("before_close#0".into(), String::new(), "A-closing".into())] };
         v.push(Case { label: "an opener is held before its open(2) of a path that does not exist yet until another has created, used and is closing the database".into(), existing: false, procs: vec![b.clone(), a.clone()] });
         // the same while the creator is still in the middle of initialising the file
-        let a2 = Proc { die: 0, grow: 0, done: String::new(), direct: false, alias: false, signals: 0, fail_init: false, soft_ms: 0, delay_us: 0, hold_us: 2000, gates: vec![("before_open#0".into(), "B-parked".into(), String::new()), ("after_write#0".into(), String::new(), "A-closing".into())] };
+        let a2 = Proc { child: false, die: 0, grow: 0, done: String::new(), direct: false, alias: false, signals: 0, fail_init: false, soft_ms: 0, delay_us: 0, hold_us: 2000, gates: vec![("before_open#0".into(), "B-parked".into(), String::new()), ("after_write#0".into(), String::new(), "A-closing".into())] };
         v.push(Case { label: "an opener is held before its open(2) of a path that does not exist yet until another is initialising the file".into(), existing: false, procs: vec![b, a2] });
     }
     // a holder that stays inside for seconds: the second opener must wait that long, not give up and not walk in
     {
-        let a = Proc { die: 0, grow: 0, done: String::new(), direct: false, alias: false, signals: 0, fail_init: false, soft_ms: 0, delay_us: 0, hold_us: 3_000_000, gates: vec![("before_mmap#0".into(), String::new(), "A-at-mmap".into())] };
-        let b = Proc { die: 0, grow: 0, done: String::new(), direct: false, alias: false, signals: 0, fail_init: false, soft_ms: 0, delay_us: 0, hold_us: 100, gates: vec![("before_open#0".into(), "A-at-mmap".into(), String::new())] };
-        v.push(Case { label: "the holder keeps the database for three seconds while a second opener is queued".into(), existing: true, procs: vec![a, b] });
+        let a = Proc { child: false, die: 0, grow: 0, done: String::new(), direct: false, alias: false, signals: 0, fail_init: false, soft_ms: 0, delay_us: 0, hold_us: if thorough { 40_000_000 } else { 9_000_000 }, gates: vec![("before_mmap#0".into(), String::new(), "A-at-mmap".into())] };
+        let b = Proc { child: false, die: 0, grow: 0, done: String::new(), direct: false, alias: false, signals: 0, fail_init: false, soft_ms: 0, delay_us: 0, hold_us: 100, gates: vec![("before_open#0".into(), "A-at-mmap".into(), String::new())] };
+        v.push(Case { label: format!("the holder keeps the database for {} seconds while a second opener is queued", if thorough { 40 } else { 9 }), existing: true, procs: vec![a, b] });
     }
     // the holder (or the newcomer) opened with direct_writes(true)
     for (existing, a_direct, b_direct) in [(true, true, false), (false, true, false), (true, false, true), (true, true, true)] {
-        let a = Proc { die: 0, grow: 0, done: String::new(), direct: a_direct, alias: false, signals: 0, fail_init: false, soft_ms: 0, delay_us: 0, hold_us: 20_000, gates: vec![("before_mmap#0".into(), String::new(), "A-at-mmap".into())] };
-        let b = Proc { die: 0, grow: 0, done: String::new(), direct: b_direct, alias: false, signals: 0, fail_init: false, soft_ms: 0, delay_us: 0, hold_us: 100, gates: vec![("before_open#0".into(), "A-at-mmap".into(), String::new())] };
+        let a = Proc { child: false, die: 0, grow: 0, done: String::new(), direct: a_direct, alias: false, signals: 0, fail_init: false, soft_ms: 0, delay_us: 0, hold_us: 20_000, gates: vec![("before_mmap#0".into(), String::new(), "A-at-mmap".into())] };
+        let b = Proc { child: false, die: 0, grow: 0, done: String::new(), direct: b_direct, alias: false, signals: 0, fail_init: false, soft_ms: 0, delay_us: 0, hold_us: 100, gates: vec![("before_open#0".into(), "A-at-mmap".into(), String::new())] };
         v.push(Case { label: format!("existing={} holder direct_writes={} while a second opener (direct_writes={}) arrives", existing, a_direct, b_direct), existing, procs: vec![a, b] });
     }
     // an opener queued on the lock is hit by signals (handler without SA_RESTART); it retries interrupted opens
     for (existing, n) in [(true, 2u32), (false, 3), (true, 6)] {
-        let a = Proc { die: 0, grow: 0, done: String::new(), direct: false, alias: false, signals: 0, fail_init: false, soft_ms: 0, delay_us: 0, hold_us: 25_000, gates: vec![("before_mmap#0".into(), String::new(), "A-at-mmap".into())] };
+        let a = Proc { child: false, die: 0, grow: 0, done: String::new(), direct: false, alias: false, signals: 0, fail_init: false, soft_ms: 0, delay_us: 0, hold_us: 25_000, gates: vec![("before_mmap#0".into(), String::new(), "A-at-mmap".into())] };
         // (B reports that it is parked at its gate - its signal handler is installed by then - before any signal is sent)
-        let b = Proc { die: 0, grow: 0, done: String::new(), direct: false, alias: false, signals: n, fail_init: false, soft_ms: 0, delay_us: 0, hold_us: 100, gates: vec![("before_open#0".into(), "A-at-mmap".into(), "B-parked".into())] };
+        let b = Proc { child: false, die: 0, grow: 0, done: String::new(), direct: false, alias: false, signals: n, fail_init: false, soft_ms: 0, delay_us: 0, hold_us: 100, gates: vec![("before_open#0".into(), "A-at-mmap".into(), "B-parked".into())] };
         v.push(Case { label: format!("existing={} an opener queued on the lock receives {} signals", existing, n), existing, procs: vec![a, b] });
     }
     // the holder EXTENDS the file (1-3 times) while a second (and third) opener is queued on the lock: the lock must
     // be held through every step of a growing commit, and through everything closing the database does
     for (existing, ga, gb, three, a_direct) in [(true, 1u32, 0u32, false, false), (false, 2, 1, false, false), (true, 3, 1, true, false), (true, 2, 0, false, true), (false, 1, 1, true, false)] {
-        let a = Proc { die: 0, grow: ga, done: String::new(), direct: a_direct, alias: false, signals: 0, fail_init: false, soft_ms: 0, delay_us: 0, hold_us: 20_000, gates: vec![("before_mmap#0".into(), String::new(), "A-at-mmap".into())] };
-        let b = Proc { die: 0, grow: gb, done: String::new(), direct: false, alias: false, signals: 0, fail_init: false, soft_ms: 0, delay_us: 0, hold_us: 100, gates: vec![("before_open#0".into(), "A-at-mmap".into(), String::new())] };
+        let a = Proc { child: false, die: 0, grow: ga, done: String::new(), direct: a_direct, alias: false, signals: 0, fail_init: false, soft_ms: 0, delay_us: 0, hold_us: 20_000, gates: vec![("before_mmap#0".into(), String::new(), "A-at-mmap".into())] };
+        let b = Proc { child: false, die: 0, grow: gb, done: String::new(), direct: false, alias: false, signals: 0, fail_init: false, soft_ms: 0, delay_us: 0, hold_us: 100, gates: vec![("before_open#0".into(), "A-at-mmap".into(), String::new())] };
         let mut procs = vec![a, b.clone()];
         if three {
             procs.push(Proc { alias: true, grow: 1, ..b.clone() });
@@ -344,19 +358,26 @@ pub fn forced_cases(thorough: bool) -> Vec<Case> {
     // file must be sound.  (A lock that has to be given back by code - a lock file, an "in use" flag in the
     // file - stays taken for ever.)
     for (existing, die, grow, three) in [(true, 1u8, 0u32, false), (false, 1, 1, false), (true, 2, 0, false), (false, 2, 1, true), (true, 1, 2, true)] {
-        let a = Proc { die, grow, done: String::new(), direct: false, alias: false, signals: 0, fail_init: false, soft_ms: 0, delay_us: 0, hold_us: 30_000, gates: vec![("before_mmap#0".into(), String::new(), "A-at-mmap".into())] };
-        let b = Proc { die: 0, grow: 0, done: String::new(), direct: false, alias: false, signals: 0, fail_init: false, soft_ms: 0, delay_us: 0, hold_us: 100, gates: vec![("before_open#0".into(), "A-at-mmap".into(), String::new())] };
+        let a = Proc { child: false, die, grow, done: String::new(), direct: false, alias: false, signals: 0, fail_init: false, soft_ms: 0, delay_us: 0, hold_us: 30_000, gates: vec![("before_mmap#0".into(), String::new(), "A-at-mmap".into())] };
+        let b = Proc { child: false, die: 0, grow: 0, done: String::new(), direct: false, alias: false, signals: 0, fail_init: false, soft_ms: 0, delay_us: 0, hold_us: 100, gates: vec![("before_open#0".into(), "A-at-mmap".into(), String::new())] };
         let mut procs = vec![a, b.clone()];
         if three {
             procs.push(Proc { grow: 1, ..b.clone() });
         }
         v.push(Case { label: format!("existing={} the holder is killed (mode {}, after {} extension(s)) while {} opener(s) are queued on the lock", existing, die, grow, procs.len() - 1), existing, procs });
     }
+    // the holder starts a helper process while it has the database open; the helper is still running when the
+    // holder has closed the database and exited.  The queued opener must get in then, not when the helper ends.
+    for (existing, grow) in [(true, 0u32), (false, 1)] {
+        let a = Proc { child: true, die: 0, grow, done: String::new(), direct: false, alias: false, signals: 0, fail_init: false, soft_ms: 0, delay_us: 0, hold_us: 20_000, gates: vec![("before_mmap#0".into(), String::new(), "A-at-mmap".into())] };
+        let b = Proc { child: false, die: 0, grow: 0, done: String::new(), direct: false, alias: false, signals: 0, fail_init: false, soft_ms: 0, delay_us: 0, hold_us: 100, gates: vec![("before_open#0".into(), "A-at-mmap".into(), String::new())] };
+        v.push(Case { label: format!("existing={} the holder starts a helper process while it has the database open; the helper outlives it; an opener is queued", existing), existing, procs: vec![a, b] });
+    }
     // whatever closing does after the lock is gone must not touch the file: if the holder that extended the file
     // ever truncates it while closing, it is held there until the next opener has committed and is about to close
     for existing in [true, false] {
-        let a = Proc { die: 0, grow: 1, done: String::new(), direct: false, alias: false, signals: 0, fail_init: false, soft_ms: 0, delay_us: 0, hold_us: 10_000, gates: vec![("before_mmap#0".into(), String::new(), "A-at-mmap".into()), ("before_truncate#0".into(), "B-done".into(), String::new())] };
-        let b = Proc { die: 0, grow: 1, done: "B-done".into(), direct: false, alias: false, signals: 0, fail_init: false, soft_ms: 0, delay_us: 0, hold_us: 100, gates: vec![("before_open#0".into(), "A-at-mmap".into(), String::new())] };
+        let a = Proc { child: false, die: 0, grow: 1, done: String::new(), direct: false, alias: false, signals: 0, fail_init: false, soft_ms: 0, delay_us: 0, hold_us: 10_000, gates: vec![("before_mmap#0".into(), String::new(), "A-at-mmap".into()), ("before_truncate#0".into(), "B-done".into(), String::new())] };
+        let b = Proc { child: false, die: 0, grow: 1, done: "B-done".into(), direct: false, alias: false, signals: 0, fail_init: false, soft_ms: 0, delay_us: 0, hold_us: 100, gates: vec![("before_open#0".into(), "A-at-mmap".into(), String::new())] };
         v.push(Case { label: format!("existing={} a holder that extended the file closes while the next opener (which extends it again) is queued", existing), existing, procs: vec![a, b] });
     }
     v
@@ -437,6 +458,9 @@ pub fn run_case(c: &Case, dir: &Path, exe: &Path, shim: &str, n: u64) -> Outcome
         if p.die > 0 {
             cmd.args(["--set", &format!("die={}", p.die)]);
         }
+        if p.child {
+            cmd.args(["--set", "child=1"]);
+        }
         if !p.gates.is_empty() || p.fail_init {
             cmd.env("LD_PRELOAD", shim).env("VERIF_DBPATH", db.display().to_string()).env("VERIF_GATES", gates.join(";"));
         } else {
@@ -492,7 +516,7 @@ pub fn run_case(c: &Case, dir: &Path, exe: &Path, shim: &str, n: u64) -> Outcome
             match ch.try_wait() {
                 Ok(Some(_)) => {
                     done[i] = true;
-                    if c.procs[i].die > 0 && holder_died_at.is_none() {
+                    if (c.procs[i].die > 0 || c.procs[i].child) && holder_died_at.is_none() {
                         holder_died_at = Some(std::time::Instant::now());
                     }
                 }
@@ -501,12 +525,13 @@ pub fn run_case(c: &Case, dir: &Path, exe: &Path, shim: &str, n: u64) -> Outcome
             }
         }
         let after_death = holder_died_at.map(|t| t.elapsed().as_secs() >= 20).unwrap_or(false);
-        if t0.elapsed().as_secs() > 45 || after_death {
+        let longest_hold_s = c.procs.iter().map(|p| p.hold_us / 1_000_000).max().unwrap_or(0);
+        if t0.elapsed().as_secs() > 45 + longest_hold_s || after_death {
             for (i, ch) in children.iter_mut().enumerate() {
                 if done[i] {
                     continue;
                 }
-                if after_death && c.procs[i].die == 0 {
+                if after_death && c.procs[i].die == 0 && !c.procs[i].child {
                     // state and CPU time of the opener that has not come back
                     let stat = std::fs::read_to_string(format!("/proc/{}/stat", ch.id())).unwrap_or_default();
                     let f: Vec<&str> = stat.rsplit_once(") ").map(|x| x.1.split(' ').collect()).unwrap_or_default();
@@ -525,10 +550,21 @@ pub fn run_case(c: &Case, dir: &Path, exe: &Path, shim: &str, n: u64) -> Outcome
         std::thread::sleep(std::time::Duration::from_micros(300));
     }
     for i in &stuck_after_death {
+        let killed = c.procs.iter().any(|p| p.die > 0);
         o.violations.push((
-            "opener-never-gets-in-after-the-holder-was-killed".into(),
-            format!("[{}] opener {} was still asleep 20 s after the process that held the database had been killed (nobody holds the database, nothing else was running)", c.label, i),
+            if killed { "opener-never-gets-in-after-the-holder-was-killed".to_string() } else { "opener-never-gets-in-although-the-holder-closed-the-database-and-exited".to_string() },
+            format!("[{}] opener {} was still asleep 20 s after the process that held the database had {} (no process that opened the database is left, nothing else was running)", c.label, i, if killed { "been killed" } else { "closed it and exited, leaving a helper process behind" }),
         ));
+    }
+    // helper processes started by holders are ended here, whatever happened
+    for i in 0..c.procs.len() {
+        if let Some(l) = std::fs::read(sub.join(format!("w{}.json", i))).ok().and_then(|b| serde_json::from_slice::<WorkerLog>(&b).ok()) {
+            if l.child_pid > 1 {
+                unsafe {
+                    libc::kill(l.child_pid as i32, libc::SIGKILL);
+                }
+            }
+        }
     }
     let timeouts = std::fs::read_dir(&sub).map(|d| d.filter_map(|e| e.ok()).any(|e| e.file_name().to_string_lossy().ends_with(".timeout"))).unwrap_or(false);
     let mut logs: Vec<WorkerLog> = Vec::new();
@@ -639,7 +675,7 @@ pub fn run(ctx: &Ctx) -> Shard {
         for _ in 0..n {
             let k = 2 + rng.usize(2);
             let existing = rng.chance(1, 2);
-            let procs = (0..k).map(|pi| Proc { die: if pi == 0 && rng.chance(1, 6) { 1 + rng.below(2) as u8 } else { 0 }, grow: if rng.chance(1, 3) { 1 + rng.below(2) as u32 } else { 0 }, done: String::new(), direct: rng.chance(1, 4), alias: pi == 1 && rng.chance(1, 2), signals: 0, fail_init: false, soft_ms: 0, delay_us: rng.below(3000), hold_us: rng.below(5000), gates: vec![] }).collect();
+            let procs = (0..k).map(|pi| Proc { child: pi == 0 && rng.chance(1, 8), die: if pi == 0 && rng.chance(1, 6) { 1 + rng.below(2) as u8 } else { 0 }, grow: if rng.chance(1, 3) { 1 + rng.below(2) as u32 } else { 0 }, done: String::new(), direct: rng.chance(1, 4), alias: pi == 1 && rng.chance(1, 2), signals: 0, fail_init: false, soft_ms: 0, delay_us: rng.below(3000), hold_us: rng.below(5000), gates: vec![] }).collect();
             cases.push(Case { label: format!("{} processes, seeded offsets, existing={}", k, existing), existing, procs });
         }
     }
@@ -666,6 +702,9 @@ pub fn run(ctx: &Ctx) -> Shard {
         }
         if c.procs.iter().any(|p| p.grow > 0) {
             shard.count("runs_in_which_a_holder_extended_the_file_with_others_queued", 1);
+        }
+        if c.procs.iter().any(|p| p.child) {
+            shard.count("runs_in_which_a_holder_left_a_helper_process_behind", 1);
         }
         if c.procs.iter().any(|p| p.die > 0) {
             shard.count("runs_in_which_a_holder_was_killed_while_it_had_the_database_open", 1);
